@@ -2,7 +2,7 @@
 #include "types.h"
 
 struct array_s {
-    unsigned short ref;
+    unsigned int ref;
 #ifdef DEBUG
     int extra_ref;
 #endif
